@@ -2,6 +2,7 @@ package checks
 
 import (
 	"fmt"
+	"reflect"
 	"strings"
 
 	ctok "github.com/pip-services3-gox/pip-services3-expressions-gox/calculator/tokenizers"
@@ -48,6 +49,31 @@ func newTokenizer(kind string) tokenizers.ITokenizer {
 		t := csv.NewCsvTokenizer()
 		t.SetFieldSeparators([]rune(parts[1]))
 		t.SetQuoteSymbols([]rune(parts[2]))
+		return t
+	}
+	if strings.HasPrefix(kind, "statecfg|") { // statecfg|<base kind>|<op>|<op>... : a built-in tokenizer whose states were reconfigured through their public setters
+		parts := strings.Split(kind, "|")
+		t := newTokenizer(parts[1])
+		for _, op := range parts[2:] {
+			if len(op) < 4 {
+				continue
+			}
+			arg := []rune(op[3:])
+			switch op[:3] {
+			case "ws-": // the character stays routed to the whitespace state but is no longer one of its characters
+				if st := t.WhitespaceState(); st != nil && !reflect.ValueOf(st).IsNil() { // the CSV tokenizer has none
+					st.SetWhitespaceChars(arg[0], arg[0], false)
+				}
+			case "wd-": // the character stays routed to the word state (or goes on inside words no longer)
+				if st := t.WordState(); st != nil && !reflect.ValueOf(st).IsNil() {
+					st.SetWordChars(arg[0], arg[0], false)
+				}
+			case "sy+": // a further multi-character symbol
+				if st := t.SymbolState(); st != nil && !reflect.ValueOf(st).IsNil() {
+					st.Add(string(arg), tokenizers.Symbol)
+				}
+			}
+		}
 		return t
 	}
 	panic("unknown tokenizer kind " + kind)
